@@ -255,6 +255,25 @@ pub fn run(ctx: &mut Ctx) {
         for_all_arrays(&objs, 3, |a| g.objects_battery("exh-bigint-key", a));
     }
     for_all_arrays(&pool_str, if thorough { 5 } else { 4 }, |a| g.scalars_battery("exh-str", a, true));
+    // a property whose value is an array is a value like any other: `where` compares it as a whole
+    {
+        let arrv = |xs: Vec<Value>| Value::Array(xs);
+        let objs: Vec<Value> = vec![
+            obj(&[("p", arrv(vec![i(1), i(2)])), ("q", i(0))]),
+            obj(&[("p", i(1)), ("q", i(1))]),
+            obj(&[("p", arrv(vec![s("b")])), ("q", i(2))]),
+            obj(&[("p", s("b")), ("q", i(3))]),
+            obj(&[("p", arrv(vec![])), ("q", i(4))]),
+        ];
+        for_all_arrays(&objs, 3, |a| {
+            for t in [i(1), i(2), s("b"), arrv(vec![s("b")]), arrv(vec![i(1), i(2)]), arrv(vec![]), Value::Nil] {
+                g.case("exh-array-prop", "where", a, &[s("p"), t]);
+            }
+            g.case("exh-array-prop", "where", a, &[s("p")]);
+            g.case("exh-array-prop", "map", a, &[s("p")]);
+            g.case("exh-array-prop", "sort", a, &[s("q")]);
+        });
+    }
     // strings that spell numbers, special numbers and keywords are ordered as strings
     let pool_numstr = vec![s("nan"), s("NaN"), s("Alice"), s("bob"), s("inf"), s("10"), s("9"), s("1e3"), s("true")];
     for_all_arrays(&pool_numstr, 3, |a| g.scalars_battery("exh-numstr", a, true));
